@@ -2,3 +2,4 @@
     one per model layer, which contain nothing but [Theorem … exact …] and
     [Print Assumptions]. *)
 From HV Require Export PropsRing.
+From HV Require Export PropsInbox.
